@@ -873,6 +873,11 @@ func (in *Interp) inReroute(fr *frame, r *ssa.Function) bool {
 		if f.fn == r {
 			return true
 		}
+		if !in.isHarnessFn(f.fn) {
+			// the call comes from code under test that the stub (further up) has called
+			// into: that code sees the stub again, like any other caller
+			return false
+		}
 	}
 	return false
 }
